@@ -200,7 +200,7 @@ def _chunk(arg):
     from sqlglot.optimizer.normalize import normalize
     from sqlglot.optimizer.qualify import qualify
     from sqlglot.optimizer.simplify import simplify
-    from lib.guard import limits, time_limit
+    from lib.guard import HardTimeout, limits, time_limit
 
     limits()
     out = []
@@ -268,7 +268,7 @@ def _chunk(arg):
                     _verif.sink = None
         except sqlglot.errors.SqlglotError:
             continue
-        except Exception as e:
+        except (Exception, HardTimeout) as e:
             out.append({"skip": f"{mode} raised {type(e).__name__}: {e}", "sql": sql})
             continue
         try:
